@@ -9,6 +9,7 @@ CONSTANTS
     CreateUnderLock = TRUE
     MayFail = TRUE
     MayForget = FALSE
+    MayPanic = FALSE
 SYMMETRY Symm
 INVARIANTS TypeOK MutexOK OwnerOK Exclusive IdleDisjoint Conservation ReuseOK ReuseTight DataIntact
 PROPERTIES DecideCreateOnlyWhenIdleEmpty CreatedOnlyWhenIdleEmpty BlocksOnlyForgottenByPoolOps ResetRewindsAll DropReleasesAll LeakedStayValid
